@@ -343,6 +343,8 @@ type xfJob struct {
 	Reads bool
 	// ShortCap (scripted peer, C12): DATA replies carry at most this many bytes
 	ShortCap int
+	// Fault (request server, C01): the transfers of xfFaultCases - the handler's backend fails at a byte offset
+	Fault bool
 }
 
 // xfApplyOpen gives the case its open mode. For the modes that empty the file the drawn size becomes what the name
@@ -433,7 +435,7 @@ func checkC01(c *lib.Ctx) {
 	r := c.R
 	res := &xfRes{r: r}
 	thorough := c.Tier == "thorough"
-	r.Rule = "transfers = server kind {os, rs} x {allocator off,on} x {max-tx default, 65536} plus scripted peer {in order, permuted replies} x client options MaxPacket{Checked,Unchecked} mp in {1,2,3,4,7,32768} (and 40000 against the servers with max-tx 65536; 262131, 262132, 262135 = around the allocator page / frame limit against both servers with max-tx 262144, allocator on and off, reads of k*p-1,k*p,k*p+1 for k<=3) x MaxConcurrentRequestsPerFile in {1,2,3,64} x UseConcurrentReads x UseConcurrentWrites x UseFstat (quick: every (mp,conc) pair three times per server kind with the booleans rotating; thorough: the full product) x API {ReadAt, Read, WriteTo, WriteAt, Write, ReadFrom with sources Len/Size/Stat/LimitedReader/opaque(+1-byte reads, lying or negative Size, oversized limit), ReadFromWithConcurrency 0/1/3} x (file size, offset, length) from {0,1,k*mp-1,k*mp,k*mp+1 (k=1..3), mp*conc+r} and uniform draws up to 3*mp*conc+2 (thorough: every length 0..3*mp*conc+2 for mp<=7, conc<=3) x open mode of the File {O_RDONLY, O_WRONLY, O_RDWR, each with/without O_CREATE, O_APPEND (the servers take the offsets the client sends: the bytes land at the File offset), O_TRUNC and Client.Create() (the name held pre_open_len bytes before; the transfer sees an empty file), O_CREATE|O_EXCL on a new name, O_CREATE|O_EXCL on an existing name (the open must fail and change nothing)}: the mode rotates over the cases (thorough: also the explicit product mode x API variant x server kind for every fourth option set); the OPEN pflags are read off the wire on the scripted peer, Request.Pflags() in the handler on the request server x request server WITHOUT sftp.OpenFileWriter (FilePut has Filewrite only: a read-write open is served by Filewrite, writes work, every read through that handle must return (0, failure status), deliver nothing, leave file and offset alone, and Close must still release the handle) x client packet size 40000 above the default server max payload 32768 on the refilling read paths (ReadAt/Read/WriteTo with concurrent reads off); a case is non-trivial when it needs more than one packet or touches end of file; distinct by (server, options, api, source, sizes)"
+	r.Rule = "transfers = server kind {os, rs} x {allocator off,on} x {max-tx default, 65536} plus scripted peer {in order, permuted replies} x client options MaxPacket{Checked,Unchecked} mp in {1,2,3,4,7,32768} (and 40000 against the servers with max-tx 65536; 262131, 262132, 262135 = around the allocator page / frame limit against both servers with max-tx 262144, allocator on and off, reads of k*p-1,k*p,k*p+1 for k<=3) x MaxConcurrentRequestsPerFile in {1,2,3,64} x UseConcurrentReads x UseConcurrentWrites x UseFstat (quick: every (mp,conc) pair three times per server kind with the booleans rotating; thorough: the full product) x API {ReadAt, Read, WriteTo, WriteAt, Write, ReadFrom with sources Len/Size/Stat/LimitedReader/opaque(+1-byte reads, lying or negative Size, oversized limit), ReadFromWithConcurrency 0/1/3} x (file size, offset, length) from {0,1,k*mp-1,k*mp,k*mp+1 (k=1..3), mp*conc+r} and uniform draws up to 3*mp*conc+2 (thorough: every length 0..3*mp*conc+2 for mp<=7, conc<=3) x open mode of the File {O_RDONLY, O_WRONLY, O_RDWR, each with/without O_CREATE, O_APPEND (the servers take the offsets the client sends: the bytes land at the File offset), O_TRUNC and Client.Create() (the name held pre_open_len bytes before; the transfer sees an empty file), O_CREATE|O_EXCL on a new name, O_CREATE|O_EXCL on an existing name (the open must fail and change nothing)}: the mode rotates over the cases (thorough: also the explicit product mode x API variant x server kind for every fourth option set); the OPEN pflags are read off the wire on the scripted peer, Request.Pflags() in the handler on the request server x request server WITHOUT sftp.OpenFileWriter (FilePut has Filewrite only: a read-write open is served by Filewrite, writes work, every read through that handle must return (0, failure status), deliver nothing, leave file and offset alone, and Close must still release the handle) x client packet size 40000 above the default server max payload 32768 on the refilling read paths (ReadAt/Read/WriteTo with concurrent reads off); plus HANDLER-SIDE FAILURES on the request server {allocator off, on} (thorough: also max-tx 65536) x every (mp,conc) pair x every API variant x 3 (thorough 12; ReadAt/Read/WriteTo: 9 resp. 36) geometries: the in-memory handler's backend breaks at a byte offset At drawn from {chunk start, chunk start+1, chunk end-1, 0, size-1, size, end of the transfer (+1: beyond it, a control)} and a ReadAt / WriteAt touching bytes at or beyond At returns (0, err) or (the bytes below At, err), err rotating through 29 VALUES {io.EOF (premature: the file then ends at At), io.ErrUnexpectedEOF bare / %w-wrapped / in *os.PathError / errors.Join-ed, os.ErrNotExist, os.ErrPermission, %w-wrapped os.ErrNotExist, syscall errnos EIO ENOSPC ENOENT EBADF EDQUOT EINVAL bare and in *os.PathError (ENOENT, EACCES, os.ErrPermission, custom), errors.New, custom types (pointer, with Timeout()), io.ErrClosedPipe, io.ErrShortWrite, fs.ErrClosed, sftp.ErrSSHFxFailure/OpUnsupported/ConnectionLost; for writes also sftp.ErrSSHFxEOF and wrapped io.EOF}, through opens served by Fileread / Filewrite / OpenFile: a nil error only if everything up to the requested end moved, io.EOF only where the file ends, otherwise a non-nil non-EOF error, n within the bytes below At that were delivered / stored contiguously from the start offset, those bytes intact, the offset at start + n (writes: within [start, start + stored]); a case is non-trivial when it needs more than one packet or touches end of file; distinct by (server, options, api, source, sizes)"
 	model := xfProbeModel(c)
 	xfProbeDefects(&model)
 	if model.Seq {
@@ -528,6 +530,23 @@ func checkC01(c *lib.Ctx) {
 				kind = "tie"
 			}
 			res.Fail(lib.Failure{Kind: kind, Key: cs.API + "/" + path + "/" + site, What: what, Input: cs, Expected: exp, Actual: act})
+		}
+		if cs.HFault != nil {
+			kind, _ := xfHErrByName(cs.HFault.Err)
+			reach := "fault-beyond-the-transfer(control)"
+			if xfFaultReached(cs) {
+				reach = "reached"
+			}
+			val := "failure"
+			if kind.EOF && cs.IsRead() {
+				val = "end-of-file"
+			}
+			res.Hist("handler-fault|api="+cs.API+"|path="+path+"|"+reach, "handler-fault|op="+cs.HFault.Op+"|err="+cs.HFault.Err,
+				fmt.Sprintf("handler-fault|op=%s|value=%s|n>0-with-error=%v|%s", cs.HFault.Op, val, cs.HFault.Partial, reach), "handler-fault|open-served-by="+out.HandlerOp.Via+"|op="+cs.HFault.Op)
+		}
+		if cs.HFault != nil && xfFaultReached(cs) && out.SetupErr == nil && !out.Hang && out.Panic == nil && out.OpenErr == nil {
+			xfC01FaultCheck(cs, out, fail)
+			return // (the model's served file does not fail)
 		}
 		xfC01Check(cs, out, fail, res.Hist)
 		if out.SetupErr != nil || out.Hang || out.Panic != nil {
@@ -627,6 +646,20 @@ func checkC01(c *lib.Ctx) {
 			}
 		}
 	}
+	// handler-side failures (xfer_fault.go): the request server's in-memory handler fails ReadAt / WriteAt at a byte
+	// offset with every kind of error value
+	for si, sp := range []xfSrvSpec{{Kind: "rs"}, {Kind: "rs", Alloc: true}, {Kind: "rs", MaxTx: 65536}, {Kind: "rs", Alloc: true, MaxTx: 65536}} {
+		if !thorough && si >= 2 {
+			break
+		}
+		cfgs := xfCoverCfgs(si*3 + rot + 1)
+		if thorough {
+			cfgs = append(cfgs, xfCoverCfgs(si*3+rot+4)...)
+		}
+		for _, cfg := range cfgs {
+			jobs = append(jobs, xfJob{Fault: true, Spec: sp, Cfg: cfg, Seed: c.Rand.Int63(), Idx: len(jobs)})
+		}
+	}
 	variants := xfAPIVariants(thorough)
 	var sampleMu sync.Mutex
 	sampled := map[string]bool{}
@@ -653,6 +686,18 @@ func checkC01(c *lib.Ctx) {
 		hold := &xfPeerHold{slot: w}
 		defer hold.Close()
 		cfg := job.Cfg
+		if job.Fault {
+			per := 3
+			if thorough {
+				per = 12
+			}
+			for _, cs := range xfFaultCases(rng, job.Spec, cfg, variants, job.Idx, per) {
+				if hangs.Spent(job.Spec) || runCase(cs, real, dir, hold) {
+					return
+				}
+			}
+			return
+		}
 		if job.Big {
 			for _, cs := range xfBigPacketCases(job.Spec, cfg, rng, thorough) {
 				if runCase(cs, real, dir, hold) {
@@ -721,7 +766,7 @@ func checkC01(c *lib.Ctx) {
 				if job.Spec.Kind == "peer" {
 					cs.Window = 1
 					if job.Spec.Perm {
-						cs.PermSeed = rng.Int63()
+						cs.PermSeed = rng.Int63() >> 11 // (below 2^53: the seed survives a JSON round trip through float64)
 						cs.Window = xfPickWindow(rng, cs)
 					} else {
 						// the in-order peer also exercises short DATA replies on the sequential read paths and a
